@@ -246,6 +246,20 @@ class FList(Sym):
         return FList(self.length, self.ivar, self.template, self.overlay)
 
 
+class GList(Sym):
+    """Generic-element view of a list of symbolic length: only the element at one arbitrary, path-global index
+    `g` (0 <= g < length) is represented.  Sound for element-wise maps / zips / enumerates, which is all it
+    supports; any other use fails closed."""
+
+    def __init__(self, length, g, value):
+        self.length = length if z3.is_expr(length) else z3.IntVal(length)
+        self.g = g
+        self.value = value
+
+    def __repr__(self):
+        return f"GList(len={self.length}, [{self.g}]={self.value!r})"
+
+
 class SObj(Sym):
     """Abstract object of a modelled class, identified by an integer term; fields come from the
     contract's object model (uninterpreted functions of the id)."""
